@@ -39,6 +39,10 @@ MUTANTS = [
     ("C05-lsh-direction", "C05", "operators.py", "        return a >> -b\n", "        return a >> b\n", 1),
     ("C05-precedence", "C05", "operators.py", '@operator("x & x", precedence=8', '@operator("x & x", precedence=3', 1),
     ("C05-neg-shift-silent", "C05", "operators.py", "    if b >= 0:\n        return a * 2 ** b\n", "    if True:\n        return a * 2 ** abs(b)\n", 1),
+    ("C18-trycompute-exit", "C18", "deferred.py", "        self.depth -= 1\n        return exc_type is NotReadyError", "        if exc_type is None:\n            self.depth -= 1\n        return exc_type is NotReadyError", 1),
+    ("C18-module-cache", "C18", "types.py", "        compiler = state[\"compiler\"]\n\n        candidates = (", "        compiler = state[\"compiler\"]\n        _SEEN[self.name] = True\n\n        candidates = (", 1),
+    ("C18-awaiting-mark", "C18", "deferred.py", "        assert Awaiting.awaiting_stack.pop() is self.deferred\n        self.deferred.is_awaiting = False", "        assert Awaiting.awaiting_stack.pop() is self.deferred\n        if exc_type is None:\n            self.deferred.is_awaiting = False", 1),
+    ("C18-handlers-pop-late", "C18", "reports.py", "        assert self.handlers_stack.pop() is self\n\n        if hasattr(self.obj, \"__exit__\"):", "        if hasattr(self.obj, \"__exit__\"):", 1),
     # negative controls: semantically neutral edits, every check must stay green
     ("NEG-rename-local", "C06", "metacommand_impl.py", "    value = wait(arg_token.resolve(state))\n\n    if not isinstance(value, int):", "    value = wait(arg_token.resolve(state))\n    _unused = 1\n\n    if not isinstance(value, int):", 0),
     ("NEG-comment-lines", "C01", "insns.py", "def try_as_register(operand, state):", "# a comment\n\ndef try_as_register(operand, state):", 0),
